@@ -115,6 +115,20 @@ theorem C08_same_container_rebinding (style : Style) (c : List Char) (a : Args) 
   | zero => rfl
   | succ n ih => simpa [rebind, List.replicate_succ, cursorRun] using ih
 
+/-- **executemany = execute per row**: the k-th parameter set is bound exactly as a single `execute` of the same
+    command with that set would bind it — for every paramstyle (there is no separate path for engine-side styles). -/
+theorem C08_executemany_rowwise (style : Style) (c : List Char) (before after : List Args) (a : Args) :
+    (executeMany style c (before ++ a :: after))[before.length]? = some (rewrite style c a) := by
+  have := C08_no_binding_state style (before.map fun x => (c, x)) (after.map fun x => (c, x)) c a
+  simpa [executeMany] using this
+
+/-- **`%(name)s` with a mapping is client-side binding under `format` as under `pyformat`** -/
+theorem C08_format_dict_client_side (c : List Char) (kv : List (List Char × List Char)) (h : kv ≠ []) :
+    rewrite .format c (.map kv) = (fmt c (.map kv), false) ∧ rewrite .pyformat c (.map kv) = (fmt c (.map kv), false) := by
+  cases kv with
+  | nil => exact absurd rfl h
+  | cons p ps => simp [rewrite, Args.isEmpty, Style.clientSide]
+
 /-- values that compare equal in Python but have different types have different literals -/
 theorem C08_typed_literals :
     (Val.bool true).lit ≠ (Val.num "1.0".toList).lit ∧ (Val.bool false).lit ≠ (Val.num "0.0".toList).lit ∧
